@@ -554,4 +554,65 @@ theorem race_free_subset (facts : List MethodFacts) (keep : MethodFacts → Bool
   subst e
   exact (protViolFrom_nil_iff guardOf m.name _ 0 []).mp (List.flatMap_eq_nil_iff.mp h m hm)
 
+/-! ### one critical section per mutex and invocation -/
+
+/-- the acquisitions in `p` are of pairwise different mutexes, none of which is in `seen` -/
+def SingleSectionFrom : List Res → List Op → Prop
+  | _, [] => True
+  | seen, .acq l _ :: r => l ∉ seen ∧ SingleSectionFrom (l :: seen) r
+  | seen, _ :: r => SingleSectionFrom seen r
+
+theorem resectionViolFrom_nil_iff (name : String) (p : List Op) (i : Nat) (seen : List Res) :
+    resectionViolFrom name i seen p = [] ↔ SingleSectionFrom seen p := by
+  induction p generalizing i seen with
+  | nil => simp [resectionViolFrom, SingleSectionFrom]
+  | cons op r ih =>
+    cases op with
+    | acq l mode =>
+      simp only [resectionViolFrom, SingleSectionFrom, List.append_eq_nil_iff, ih]
+      constructor
+      · rintro ⟨h1, h2⟩
+        refine ⟨?_, h2⟩
+        intro hm
+        simp [hm] at h1
+      · rintro ⟨h1, h2⟩
+        refine ⟨?_, h2⟩
+        simp [h1]
+    | rel l mode => simpa [resectionViolFrom, SingleSectionFrom] using ih (i + 1) seen
+    | access f mode => simpa [resectionViolFrom, SingleSectionFrom] using ih (i + 1) seen
+    | unresolved c => simpa [resectionViolFrom, SingleSectionFrom] using ih (i + 1) seen
+
+/-- every store operation is one critical section per mutex: no method takes a mutex again after
+    having released it (after inlining its callees) -/
+def SingleSection (facts : List MethodFacts) : Prop := ∀ p ∈ programs facts, SingleSectionFrom [] p
+
+theorem singleSection_iff (facts : List MethodFacts) : sectionViolations facts = [] ↔ SingleSection facts :=
+  perMethod_nil_iff facts _ _ (fun n p => resectionViolFrom_nil_iff n p 0 [])
+
+/-- what it means: a program in which some mutex is acquired at two positions is reported -/
+theorem singleSectionFrom_no_second_acq {seen : List Res} {p : List Op} (h : SingleSectionFrom seen p)
+    (l : Res) (hl : l ∈ seen) : ∀ mode, Op.acq l mode ∉ p := by
+  induction p generalizing seen with
+  | nil => intro _ hm; cases hm
+  | cons op r ih =>
+    intro mode hm
+    cases op with
+    | acq l' mode' =>
+      obtain ⟨h1, h2⟩ := h
+      rcases List.mem_cons.mp hm with he | hr
+      · cases he; exact h1 hl
+      · exact ih h2 (List.mem_cons_of_mem _ hl) mode hr
+    | rel l' mode' =>
+      rcases List.mem_cons.mp hm with he | hr
+      · cases he
+      · exact ih h hl mode hr
+    | access f mode' =>
+      rcases List.mem_cons.mp hm with he | hr
+      · cases he
+      · exact ih h hl mode hr
+    | unresolved c =>
+      rcases List.mem_cons.mp hm with he | hr
+      · cases he
+      · exact ih h hl mode hr
+
 end Fosite.Proofs.Lockset
